@@ -14,7 +14,7 @@ for d in sorted(glob.glob('/verif/seeded/C*-*'), key=lambda p: (p.split('/')[-1]
     note = det.get('note', '')
     if note.startswith('MISSED'):
         caught = 'yes, after strengthening (missed first)'
-    if note.startswith('NOT REPORTED ANY MORE'):
+    if note.startswith('NOT REPORTED ANY MORE') or note.startswith('NOT A VIOLATION'):
         caught = 'no, on purpose: not a violation of the property as stated'
     rows.append(f"| {m.get('id', d.split('/')[-1])} | {what} | {caught} | {by} | {det.get('first_violation_plan_index','')} |")
 table = ["| id | change | caught by quick tier | violation class | first plan index |", "|---|---|---|---|---|"] + rows
